@@ -722,7 +722,16 @@ func (f *Frame) calleeFrame(tg modTarget, st *State, reach Term, pos token.Pos, 
 		}
 	}
 	if strings.HasPrefix(tg.key, "X:") {
-		return // ghost state is not part of anybody's frame
+		// ghost state has no location: a caller lists the ghost components its callees
+		// write by name, so that "not listed" means "unchanged" for callers further up
+		for _, m := range top.frameTargets {
+			if m.key == tg.key {
+				return
+			}
+		}
+		name := "frame@" + f.prefix + top.site("ghost:"+strings.TrimPrefix(tg.key, "X:")+"@call:"+con.Func)
+		top.oblige("frame", name, top.frameTags, reach, tFalse(), f.pos(pos)).Desc = "callee writes the ghost component " + tg.key + ", which the caller's modifies clause does not list"
+		return
 	}
 	if strings.HasPrefix(tg.key, "G:") && tg.whole {
 		// a package-level variable that the callee declares it writes (the timestamp
